@@ -20,11 +20,79 @@ import (
 	"fmt"
 	"time"
 
+	"github.com/olric-data/olric/internal/cluster/partitions"
+	"github.com/olric-data/olric/internal/discovery"
 	"github.com/olric-data/olric/internal/protocol"
 	"github.com/olric-data/olric/internal/resp"
 	"github.com/olric-data/olric/internal/util"
 	"github.com/olric-data/olric/pkg/storage"
+	"github.com/redis/go-redis/v9"
 )
+
+// atomicOperationOwner returns the partition owner of the key if it is a different
+// member. Atomic operations are serialized by the key lock of the partition owner,
+// the other members have to forward them instead of running them under their own lock.
+func (dm *DMap) atomicOperationOwner(e *env) (discovery.Member, bool) {
+	hkey := partitions.HKey(e.dmap, e.key)
+	owner := dm.s.primary.PartitionByHKey(hkey).Owner()
+	return owner, !owner.CompareByName(dm.s.rt.This())
+}
+
+func (dm *DMap) atomicIncrDecrOnOwner(owner discovery.Member, cmd string, e *env, delta int) (int, error) {
+	var c *redis.IntCmd
+	switch cmd {
+	case protocol.DMap.Incr:
+		c = protocol.NewIncr(e.dmap, e.key, delta).Command(e.ctx)
+	case protocol.DMap.Decr:
+		c = protocol.NewDecr(e.dmap, e.key, delta).Command(e.ctx)
+	default:
+		return 0, fmt.Errorf("invalid operation")
+	}
+	rc := dm.s.client.Get(owner.String())
+	err := rc.Process(e.ctx, c)
+	if err != nil {
+		return 0, protocol.ConvertError(err)
+	}
+	res, err := c.Result()
+	if err != nil {
+		return 0, protocol.ConvertError(err)
+	}
+	return int(res), nil
+}
+
+func (dm *DMap) atomicIncrByFloatOnOwner(owner discovery.Member, e *env, delta float64) (float64, error) {
+	c := protocol.NewIncrByFloat(e.dmap, e.key, delta).Command(e.ctx)
+	rc := dm.s.client.Get(owner.String())
+	err := rc.Process(e.ctx, c)
+	if err != nil {
+		return 0, protocol.ConvertError(err)
+	}
+	res, err := c.Result()
+	if err != nil {
+		return 0, protocol.ConvertError(err)
+	}
+	return res, nil
+}
+
+func (dm *DMap) getPutOnOwner(owner discovery.Member, e *env) (storage.Entry, error) {
+	c := protocol.NewGetPut(e.dmap, e.key, e.value).SetRaw().Command(e.ctx)
+	rc := dm.s.client.Get(owner.String())
+	err := rc.Process(e.ctx, c)
+	if errors.Is(err, redis.Nil) {
+		// There was no previous value.
+		return nil, nil
+	}
+	if err != nil {
+		return nil, protocol.ConvertError(err)
+	}
+	raw, err := c.Bytes()
+	if err != nil {
+		return nil, protocol.ConvertError(err)
+	}
+	entry := dm.engine.NewEntry()
+	entry.Decode(raw)
+	return entry, nil
+}
 
 func (dm *DMap) loadCurrentAtomicInt(e *env) (int, int64, error) {
 	entry, err := dm.Get(e.ctx, e.key)
@@ -46,6 +114,10 @@ func (dm *DMap) loadCurrentAtomicInt(e *env) (int, int64, error) {
 }
 
 func (dm *DMap) atomicIncrDecr(cmd string, e *env, delta int) (int, error) {
+	if owner, remote := dm.atomicOperationOwner(e); remote {
+		return dm.atomicIncrDecrOnOwner(owner, cmd, e, delta)
+	}
+
 	atomicKey := e.dmap + e.key
 	dm.s.locker.Lock(atomicKey)
 	defer func() {
@@ -110,6 +182,10 @@ func (dm *DMap) Decr(ctx context.Context, key string, delta int) (int, error) {
 }
 
 func (dm *DMap) getPut(e *env) (storage.Entry, error) {
+	if owner, remote := dm.atomicOperationOwner(e); remote {
+		return dm.getPutOnOwner(owner, e)
+	}
+
 	atomicKey := e.dmap + e.key
 	dm.s.locker.Lock(atomicKey)
 	defer func() {
@@ -169,6 +245,10 @@ func (dm *DMap) GetPut(ctx context.Context, key string, value interface{}) (stor
 }
 
 func (dm *DMap) atomicIncrByFloat(e *env, delta float64) (float64, error) {
+	if owner, remote := dm.atomicOperationOwner(e); remote {
+		return dm.atomicIncrByFloatOnOwner(owner, e, delta)
+	}
+
 	atomicKey := e.dmap + e.key
 	dm.s.locker.Lock(atomicKey)
 	defer func() {
